@@ -116,9 +116,13 @@ macro_rules! ops_single {
         let ds = $ds;
         match ds.one_vs_all() {
             Ok(list) => {
-                for (label, v) in list.iter() {
-                    $o.ova_labels.push(*label);
-                    $o.outs.push(observe(v));
+                // the order of the returned list follows a HashSet (different on every call); it is
+                // not part of the property, so the results are put into label order here
+                let mut order: Vec<usize> = (0..list.len()).collect();
+                order.sort_by_key(|&i| list[i].0);
+                for i in order {
+                    $o.ova_labels.push(list[i].0);
+                    $o.outs.push(observe(&list[i].1));
                 }
             }
             Err(e) => return Err(format!("one_vs_all returned Err({})", e)),
